@@ -172,4 +172,58 @@ theorem invA_step (c : Cfg) (p : Params) (s s' : State) (e : Ev) (h : InvA c s) 
     obtain ⟨hS, hM, lS, lM, c1, c2, c3, sp⟩ := h
     exact ⟨hS, hM, lS, lM, c1, c2, c3, sp⟩
 
+/-! ### deadlock freedom -/
+theorem stepS_none (p : Params) (s : State) (h : stepS p s = none) :
+    s.ad.pc = .done ∨ (s.ad.pc = .a163 ∧ s.lock ≠ none) := by
+  obtain ⟨pending, stamps, num, lock, clock, submitted, errors, added, started, ⟨apc, cur, todo⟩, mon⟩ := s
+  cases apc <;> simp only [stepS] at h <;> (try split at h) <;> simp_all
+
+def acquirePc : MPc → Bool
+  | .gLock | .p183 | .p193 | .pdLock => true
+  | _ => false
+
+theorem stepM_none (c : Cfg) (p : Params) (s : State) (h : stepM c p s = none) :
+    s.mon.pc = .none ∨ s.mon.pc = .dead ∨ (acquirePc s.mon.pc = true ∧ s.lock ≠ none) := by
+  obtain ⟨pending, stamps, num, lock, clock, submitted, errors, added, started, ad, ⟨mpc, currtime, iterUsed, iterRest, descr, isStale, acc, stales, jobs, remainder, timestamp, loopJobs, job, decRead, err⟩⟩ := s
+  cases mpc <;> simp only [stepM] at h <;> (try split at h) <;> (try split at h) <;> simp_all [acquirePc]
+
+/-- No interleaving deadlocks: some thread can always take a step unless the adder has finished and no
+monitor thread is running. -/
+theorem no_deadlock_of_invA (c : Cfg) (p : Params) (s : State) (hA : InvA c s) :
+    stepS p s ≠ none ∨ stepM c p s ≠ none ∨ (s.ad.pc = .done ∧ monAlive s.mon = false) := by
+  by_cases h1 : stepS p s = none
+  · by_cases h2 : stepM c p s = none
+    · right; right
+      have a := stepS_none p s h1
+      have b := stepM_none c p s h2
+      obtain ⟨hS, hM, lS, lM, _, _, _, _⟩ := hA
+      have key : ∀ t, s.lock = some t → False ∨ (holdsS s.ad.pc = true ∨ holdsM c s.mon.pc = true) := by
+        intro t ht; cases t with
+        | S => exact Or.inr (Or.inl (lS ht))
+        | M => exact Or.inr (Or.inr (lM ht))
+      rcases a with ha | ⟨ha, hl⟩
+      · rcases b with hb | hb | ⟨hb, hl⟩
+        · exact ⟨ha, by simp [monAlive, hb]⟩
+        · exact ⟨ha, by simp [monAlive, hb]⟩
+        · exfalso
+          cases hlk : s.lock with
+          | none => exact hl hlk
+          | some t =>
+            rcases key t hlk with hf | hh | hh
+            · exact hf
+            · rw [ha] at hh; simp [holdsS] at hh
+            · revert hb hh; cases s.mon.pc <;> simp [acquirePc, holdsM]
+      · exfalso
+        cases hlk : s.lock with
+        | none => exact hl hlk
+        | some t =>
+          rcases key t hlk with hf | hh | hh
+          · exact hf
+          · rw [ha] at hh; simp [holdsS] at hh
+          · rcases b with hb | hb | ⟨hb, _⟩
+            · rw [hb] at hh; simp [holdsM] at hh
+            · rw [hb] at hh; simp [holdsM] at hh
+            · revert hb hh; cases s.mon.pc <;> simp [acquirePc, holdsM]
+    · exact Or.inr (Or.inl h2)
+  · exact Or.inl h1
 end RedunModel.Arrayer
